@@ -44,6 +44,6 @@ def run(ctx):
             if len(lst) > 1:
                 ok = len({(a, b) for (_, a, b) in lst}) == 1
                 ctx.ob("sibling-agreement", "%s:%s" % (kind, nm), ok, "%s: %d impls agree on (hash_len, block_len)" % (nm, len(lst)) if ok else "%s impls disagree: %s" % (nm, lst), None, cfg)
-        ctx.floor("resolver-table", prims.resolver_tables(ctx, cfg), 6, cfg)
+        ctx.floor("resolver-table", prims.resolver_tables(ctx, cfg), 4, cfg)
         ctx.floor("fallback-structure", fallback.check_fallback(ctx, cfg), 4, cfg)
         fallback.check_builder_resolver(ctx, cfg)
